@@ -27,6 +27,7 @@ type c19Params struct {
 	StopAt     int      `json:"stop_at,omitempty"` // call Stop() after this many pings returned (0 = never)
 	Calls      []string `json:"calls,omitempty"`   // permutation scenario: sequence of Start/Stop calls
 	IntervalMs int      `json:"interval_ms,omitempty"`
+	SlowFailMs int      `json:"slow_fail_ms,omitempty"` // a failing ping takes this long to fail (a ping that runs into its timeout)
 }
 
 type pingClient struct {
@@ -38,6 +39,7 @@ type pingClient struct {
 	maxConc  int32
 	after    chan int // receives ping index after each ping returned
 	delay    time.Duration
+	slowFail time.Duration
 	times    []time.Time
 }
 
@@ -61,6 +63,9 @@ func (p *pingClient) Ping() (*models.PingResult, error) {
 	drv.NoteFlush("ping %d %v", n, ok)
 	if p.delay > 0 {
 		time.Sleep(p.delay)
+	}
+	if !ok && p.slowFail > 0 {
+		time.Sleep(p.slowFail)
 	}
 	atomic.AddInt32(&p.inflight, -1)
 	if p.after != nil {
@@ -123,6 +128,16 @@ func init() {
 				add("stop", c19Params{Script: "SF" + strings.Repeat("F", 4), StopAt: 1 + k}, true)
 			}
 			add("stop", c19Params{Script: "SSS", StopAt: 2}, true)
+			// failing pings that take longer than the retry interval to fail (time-outs): five of them still end the process,
+			// four and a success do not
+			add("round", c19Params{Script: "FFFFF", SlowFailMs: 1050}, true)
+			add("round", c19Params{Script: "FFFFS", SlowFailMs: 1050}, true)
+			add("round", c19Params{Script: "SFFFFF", SlowFailMs: 1100}, true)
+			// Stop() right after Start(), before the check goroutine has run at all (one processor): nothing may be pinged afterwards
+			for k := 0; k < 3; k++ {
+				raw, _ := json.Marshal(c19Params{Script: "SSSS", IntervalMs: []int{1, 5, 20}[k]})
+				out = append(out, drv.Scenario{Kind: "stop-at-once", Seed: seed, Params: raw, TimeoutS: 60, Solo: true, GoMaxProcs: 1})
+			}
 			// call sequences
 			var seqs [][]string
 			var rec func(cur []string)
@@ -172,7 +187,7 @@ func init() {
 					stopped = true
 				}
 			}
-			if sc.Kind == "stop" || sc.Kind == "calls" {
+			if sc.Kind == "stop" || sc.Kind == "calls" || sc.Kind == "stop-at-once" {
 				base.Verdict = drv.Violated
 				base.Clause = "stop-crash"
 				base.FindingKey = "C19/stop-crash"
@@ -208,7 +223,7 @@ func runC19(sc drv.Scenario) drv.Result {
 		iv = 20
 	}
 	cfg := &config.HealthCheck{Interval: time.Duration(iv) * time.Millisecond, Timeout: time.Second}
-	pc := &pingClient{script: p.Script, after: make(chan int, 64)}
+	pc := &pingClient{script: p.Script, after: make(chan int, 64), slowFail: time.Duration(p.SlowFailMs) * time.Millisecond}
 	res := drv.Result{Verdict: drv.Held, Events: map[string]int{}, Checks: 1, Nontrivial: strings.Contains(p.Script, "F") || p.StopAt > 0 || len(p.Calls) > 1,
 		TraceHash: drv.Hash(sc.Kind, p.Script, fmt.Sprint(p.StopAt), strings.Join(p.Calls, ","))}
 	viol := func(clause, detail string) drv.Result {
@@ -243,6 +258,21 @@ func runC19(sc drv.Scenario) drv.Result {
 		}
 		res.Events["pings"] = pc.count()
 		res.Sample = map[string]any{"script": p.Script, "pings": pc.count(), "survived": true}
+	case "stop-at-once":
+		h := couchbase.NewHealthCheck(cfg, pc)
+		h.Start()
+		if !callWithBound("Stop", h.Stop) {
+			return viol("stop-hang", "Stop() right after Start() did not return within 15 s\n"+strings.Join(hx.LibStacks(), "\n"))
+		}
+		drv.NoteFlush("stop.ret")
+		n := pc.count()
+		time.Sleep(400 * time.Millisecond)
+		if pc.count() != n {
+			return viol("ping-after-stop", fmt.Sprintf("Stop() right after Start(): %d ping(s) issued after Stop() had returned", pc.count()-n))
+		}
+		res.Nontrivial = true
+		res.Events["pings"] = n
+		res.Sample = map[string]any{"calls": "Start, Stop at once (GOMAXPROCS=1)", "pings_before_stop_returned": n, "pings_after_stop": 0}
 	case "stop":
 		h := couchbase.NewHealthCheck(cfg, pc)
 		h.Start()
